@@ -15,7 +15,7 @@ def rehash(k, bits):
 class C32(Check):
     id = "C32"
     prop_file = "theories/Properties/Properties_C32.v"
-    theorems = ("C32_hash_in_range",)
+    theorems = ("C32_hash_in_range", "C32_hash_low_bits", "C32_seq_refinement", "C32_each_binding_once")
     comp = "hasht"
     extract_file = "theories/Extract/Extract_HashT.v"
     extracted = ("hasht",)
